@@ -503,3 +503,40 @@ def check_ls_structure(ctx):
                    f"initial peak estimate is `{U(me[0].value)}`; expected {K}[1 + argmax({S}[1:])] (k = 0 carries the value 1 and must be skipped consistently)")
     else:
         ctx.undecided("PEAK", LS + ":estimate", fi, f"{len(me)} arg-max statements in the peak branch")
+
+
+def check_accumulator_dtype(ctx, quals, rule="DTYPE"):
+    """Working arrays of the spectral analysis are float64 whatever the image's dtype: an accumulator created with
+    `np.zeros_like(<image data>)` (no dtype) inherits float32 / integer dtypes, so wave numbers or sums accumulated in it
+    differ from those of the same image stored as float64 (or the in-place addition raises for integer images)."""
+    import ast as _ast
+
+    def sites(fnode, params):
+        out = []
+        for c in _ast.walk(fnode):
+            if isinstance(c, _ast.Call) and U(c.func).split(".")[-1] in ("zeros_like", "ones_like", "empty_like", "full_like") and c.args and kwarg(c, "dtype") is None:
+                a = c.args[0]
+                root = a
+                while isinstance(root, (_ast.Attribute, _ast.Subscript)):
+                    root = root.value
+                if isinstance(a, _ast.Attribute) and a.attr == "data" and isinstance(root, _ast.Name) and root.id in params:
+                    out.append(c)
+        return out
+
+    fx = _ast.parse("def f(field):\n    acc = np.zeros_like(field.data)\n    ok = np.zeros_like(field.data, dtype=float)\n    return acc, ok\n").body[0]
+    if len(sites(fx, {"field"})) != 1:
+        from ..model import AnalysisError
+
+        raise AnalysisError("DTYPE fixture was not flagged exactly once — rule is blind", rule)
+    m = ctx.model
+    n = 0
+    for q in quals:
+        if not m.has_func(q):
+            continue
+        fi = m.func(q)
+        bad = sites(fi.node, set(fi.all_params))
+        n += 1
+        ctx.decide(not bad, rule, fi.qualname + ":accumulators", (fi, bad[0]) if bad else fi, "no working array inherits the image's dtype",
+                   f"`{U(bad[0])[:60] if bad else ''}` creates a working array in the image's own dtype: for a float32 or integer image the values accumulated in it (wave numbers, sums) "
+                   "are rounded to that dtype or the in-place update raises, so the result is not the one of the same image stored as float64")
+    return n
